@@ -87,9 +87,15 @@ func collectAddressFilters(q interface {
 			if isPartialAddress(v) {
 				needSegments = true
 			}
-		default:
-			// $in operator passes arrays — these are always exact addresses,
-			// not partial, so we skip them (no GIN index optimization possible).
+		case []any:
+			// $in operator passes arrays of exact addresses: they never need the segments, but
+			// they must be part of the pushed-down OR, otherwise "$or[partial, $in]" loses the
+			// rows matching only the $in branch (canPush counts $in as an address branch).
+			for _, item := range v {
+				if address, ok := item.(string); ok {
+					addresses = append(addresses, address)
+				}
+			}
 		}
 		return false
 	})
